@@ -350,6 +350,14 @@ def run_cached(repo, specs, sel, jobs, timeout_ms, repo_root, tier):
             json.dump(r, open(os.path.join(d, keys[i] + '.json'), 'w'))
         except Exception:
             pass
+    try:      # the cache is bounded: beyond 2000 entries the oldest are dropped
+        fs = [os.path.join(d, x) for x in os.listdir(d) if x.endswith('.json')]
+        if len(fs) > 2000:
+            fs.sort(key=os.path.getmtime)
+            for x in fs[:len(fs) - 1500]:
+                os.unlink(x)
+    except OSError:
+        pass
     return res, len(sel) - len(todo)
 
 
